@@ -51,9 +51,12 @@ type Contract struct {
 	Lets     []Clause // Label = name
 	Modifies []string
 	ModAll   bool
+	ModHeap  bool // "modifies heap": everything an unknown callee could write (heap, memory, globals), but no ghost state
 	NoSwallow bool // every error returned by a callee must make this function return a non-nil error
 	NoSwallowExcept []string // callees whose errors are handled by design
 	NoPanic  bool
+	LockCheck bool // check the lock discipline in this function (lockset.go)
+	Goroutine bool // the function is the body of a goroutine: it starts with no lock held
 	Inline   bool
 	Pure     bool // callee has no side effects at all (modifies nothing)
 	Reads    []string // ghost variables a `function` result additionally depends on
@@ -107,6 +110,7 @@ type Lemma struct {
 
 type ContractSet struct {
 	GhostNames map[string]bool // every ghost variable named in a contract or spec file
+	Guarded   map[string]string // heap key prefix of a field -> lock key of the mutex that protects it
 	ScratchGhost map[string]bool // loop head snapshots (and their prev_ copies): proof-local, outside every frame
 	Stable    []string // heap key prefixes changed only through contracts that name them (unknown callees cannot reach them)
 	Immutable []string // heap key prefixes "H|<pkgname>.<Type>|<field>" never written after construction
@@ -363,6 +367,32 @@ func (cs *ContractSet) loadFile(path, repoDir string) error {
 				}
 				cs.Stable = append(cs.Stable, "H|"+pn+"."+it[:i]+"|"+it[i+1:])
 			}
+		case "guarded":
+			// guarded Type.f, Type.g by Type.mu
+			cur, curLemma = nil, nil
+			m := regexp.MustCompile(`^(.*)\s+by\s+(\w+)\.([\w.]+)$`).FindStringSubmatch(rest)
+			if m == nil {
+				return fmt.Errorf("%s:%d: guarded Type.field, ... by Type.mutex", path, lineNo)
+			}
+			pn := pkgPath
+			if j := strings.LastIndex(pn, "/"); j >= 0 {
+				pn = pn[j+1:]
+			}
+			if cs.Guarded == nil {
+				cs.Guarded = map[string]string{}
+			}
+			for _, it := range fieldsComma(m[1]) {
+				if strings.HasPrefix(it, "global:") {
+					// guarded global:v by global.mu  (package-level variables)
+					cs.Guarded["V|"+pn+"."+strings.TrimPrefix(it, "global:")] = "L|G|" + pn + "." + m[3]
+					continue
+				}
+				i := strings.Index(it, ".")
+				if i < 0 {
+					return fmt.Errorf("%s:%d: guarded Type.field", path, lineNo)
+				}
+				cs.Guarded["H|"+pn+"."+it[:i]+"|"+it[i+1:]] = "L|" + pn + "." + m[2] + "|" + m[3]
+			}
 		case "immutable":
 			// immutable Type.field: set by the constructor only (checked), so no call changes it
 			cur, curLemma = nil, nil
@@ -388,6 +418,19 @@ func (cs *ContractSet) loadFile(path, repoDir string) error {
 			cur = &Contract{Key: key, Pkg: pkgPath, Loops: map[int]*LoopContract{}, File: path, Line: lineNo, Extern: true, Trusted: true}
 			cur.Params = fieldsComma(m[3])
 			cur.Results = fieldsComma(m[4])
+			cs.ByKey["|"+key] = cur
+		case "functype":
+			// functype <pkgname.Type>(params) (results): contract assumed for every
+			// call through a value of this named function type (callbacks)
+			curLemma = nil
+			m := regexp.MustCompile(`^(\S+?)\s*\(([^)]*)\)\s*(?:\(([^)]*)\))?\s*$`).FindStringSubmatch(rest)
+			if m == nil {
+				return fmt.Errorf("%s:%d: bad functype header %q", path, lineNo, body)
+			}
+			key := "functype " + m[1]
+			cur = &Contract{Key: key, Pkg: pkgPath, Loops: map[int]*LoopContract{}, File: path, Line: lineNo, Extern: true, Trusted: true}
+			cur.Params = fieldsComma(m[2])
+			cur.Results = fieldsComma(m[3])
 			cs.ByKey["|"+key] = cur
 		case "specfact":
 			// specfact name(a, b): expr
@@ -493,6 +536,8 @@ func (cs *ContractSet) loadFile(path, repoDir string) error {
 				for _, m := range fieldsComma(rest) {
 					if m == "*" {
 						cur.ModAll = true
+					} else if m == "heap" {
+						cur.ModHeap = true
 					} else {
 						cur.Modifies = append(cur.Modifies, m)
 					}
@@ -520,6 +565,10 @@ func (cs *ContractSet) loadFile(path, repoDir string) error {
 				n, _ := strconv.Atoi(m[2])
 				cur.CallAsserts = append(cur.CallAsserts, CallAssert{Callee: m[1], N: n, Clause: c, After: true, Var: m[3]})
 				cs.GhostNames[m[3]] = true
+			case "lockcheck":
+				cur.LockCheck = true
+			case "goroutine":
+				cur.Goroutine = true
 			case "noswallow":
 				cur.NoSwallow = true
 				if strings.HasPrefix(rest, "except ") {
